@@ -3,6 +3,7 @@
 package types
 
 import (
+	"github.com/fatedier/frp/pkg/util/util"
 	"github.com/fatedier/frp/zzverif"
 )
 
@@ -37,6 +38,22 @@ func VerifC18Ranges() {
 func VerifC18RangesTotal() {
 	text := zzverif.StringUpTo("t", zzverif.Param("maxText", 4), "19,- ")
 	out, err := NewPortsRangeSliceFromString(text)
+	// the two parsers of port literals agree (the legacy loader checks an allow_ports text with one
+	// and builds the whitelist with the other: a text only the first accepts leaves the whitelist
+	// empty, i.e. every port allowed)
+	nums, e2 := util.ParseRangeNumbers(text)
+	zzverif.Assert((err == nil) == (e2 == nil), "C09.ranges.both-port-literal-parsers-accept-the-same-texts")
+	if err == nil && e2 == nil {
+		total := 0
+		for _, r := range out {
+			if r.Single != 0 || (r.Start == 0 && r.End == 0) {
+				total++
+			} else {
+				total += r.End - r.Start + 1
+			}
+		}
+		zzverif.Assert(total == len(nums), "C09.ranges.both-parsers-enumerate-the-same-ports")
+	}
 	if err == nil {
 		for _, r := range out {
 			if r.Single == 0 {
